@@ -12,12 +12,34 @@ def main(tier, replay=None):
     src = scratch_build(rd, "plain")
     opts = ["thorough=1"] if tier == "thorough" else []
     vk_run(res, "c18clean", src, rd, "0,1,0,0", 1, 1800 if tier == "thorough" else 300, "qmail-clean-requests", opts=opts)
-    for f in sorted(globals().get("EXTRA_FAMILIES", [])):
-        pass
+    th = ["thorough=1"] if tier == "thorough" else []
+    for prog in ("rspawn", "lspawn"):
+        for fam in ("ids", "cut", "multi"):
+            vk_run(res, "c18spawn", src, rd, "0,0,0,0", 0, 1500, "%s-command-streams-%s" % (prog, fam), opts=["family=" + fam, "prog=" + prog] + th)
     res.rule = ("qmail-clean: every request of the set {f,o,p,t,d,/,x}^5 x representative suffixes + near-miss keywords x every suffix over "
                 "{1,2,/,.,x,0xFF}^<=4 (thorough: the full product), lengths around the 7/100 limits, numbers around 2^64, unterminated final "
                 "request; each request is fed alone (the helper is quiescent before the next one), the oracle compares the paths passed to "
                 "unlink() and the bytes answered with the documented behaviour; plus a batch with every unlink failing once (EIO/EISDIR)")
+    # qmail-send's report channels: stray, mangled and oversized reports while deliveries are in flight.  Run on the sanitised build as
+    # well: a range check that is off by one reads a slot behind the delivery table, whose content is whatever the heap holds
+    asan = scratch_build(rd, "asan")
+    eb = 2 if tier == "quick" else 3
+    for kind, tree in (("plain", src), ("sanitised", asan)):
+        for msgs in (("l1r1",) if tier == "quick" else ("l1r1", "l3", "r2")):
+            vk_run(res, "daemon", tree, rd, "0,0,0,%d" % eb, eb, 1500, "qmail-send-report-channels-%s-%s" % (msgs, kind),
+                   opts=["monitors=C04,C03", "msgs=" + msgs, "signals=0", "verdicts=KZDghueOQ", "reorder=2"] + (["concl=3"] if msgs == "l3" else []))
+    res.rule += ("; qmail-send (real qmail-send/qmail-clean, the harness plays both spawners): while 1-3 deliveries are in flight every choice "
+                 "of {success, deferral, failure, report numbered == concurrency, 255, a free slot, bare number+NUL, unknown status letter, "
+                 "12000-byte deferral} for each of the 2 oldest deliveries, up to %d deviations from all-success, on the plain and the "
+                 "sanitised build; oracle: stray reports change nothing (done-marks only after a matching verdict, every recipient still "
+                 "attempted and resolved, no crash), mangled ones defer, oversized ones are truncated" % eb)
+    res.rule += ("; spawners (real qmail-lspawn and qmail-rspawn, delivery programs are recording stand-ins): one command for every message id "
+                 "of a 33-entry catalogue (valid, wrong owner, directory, FIFO, missing, absolute, dot-dot, doubled slash, letters, high bytes, "
+                 "99/100/101 bytes, empty) x delivery numbers {0,1,119,120,127,128,255} x recipient/sender forms; a two-command stream cut after "
+                 "every byte; every sequence of <=3 (thorough 4) commands over 7 (same delivery number twice, invalid between valid); oracle: "
+                 "the spawner opens only numerically named paths below queue/mess, a delivery program is started iff id numeric + regular "
+                 "file + queue owner + host part and reads exactly that message, exactly one report per complete command carrying its "
+                 "delivery number, documented status letter")
     res.assumptions = ["a request is valid iff it is (foop|todo)/<decimal number < 2^64> NUL with total length 7..100"]
-    res.require_nonzero("evaluations", "valid_requests", "rejected_requests", "unlink_failures_injected")
+    res.require_nonzero("evaluations", "valid_requests", "rejected_requests", "unlink_failures_injected", "children_started", "reports_checked", "spawner_opens_checked", "reports_stray", "reports_garbage", "reports_oversized")
     return res.finish()
